@@ -443,6 +443,28 @@ def c_passivity(case, ctx):
         raise Violation("qd.c = %.12g but 1/2 qd^T Mdot qd = %.12g (diff %.3g > tol %.3g)" % (lhs, rhs, abs(lhs - rhs), tol))
 
 
+def c_christoffel(case, ctx):
+    """c(q, qd) of the manipulator equation is determined by M:  c_k = sum_ij (dM_kj/dq_i - 1/2 dM_ij/dq_k) qd_i qd_j.
+    (The passivity identity alone cannot see a workless error: flipping the sign of the gyroscopic term
+    ad(V)^T G V leaves qd.c unchanged because V^T ad(V)^T G V = 0.)"""
+    S, Ml, Gl, n = unpack(case)
+    q, qd = case["q"], case["qd"]
+    common_labels(ctx, S, Gl, q)
+    ctx.label("|qd| " + decade(amax(qd)))
+    ctx.nontrivial(n >= 2 and generic_axis(S) and np.linalg.norm(qd) >= 0.1)
+    homes = link_homes(Ml)
+    c = vec_out(sut(mr().VelQuadraticForces, q, qd, Ml, Gl, S), n, "VelQuadraticForces")
+    dM = [O.richardson(lambda x: mass_oracle(S, homes, Gl, x), q, i) for i in range(n)]
+    ref = np.zeros(n)
+    for k in range(n):
+        for i in range(n):
+            ref[k] += qd[i] * float((dM[i][k, :] - 0.5 * dM[k][i, :]) @ qd)
+    sM = amax(mass_oracle(S, homes, Gl, q))
+    sc = norm1(qd) ** 2 * (1.5 * max(amax(d) for d in dM) + sM)
+    close(c, ref, band_tol(q, FDTOL, sc, 6.0 * Reach(S, homes, Gl, q).Mb * norm1(qd) ** 2),
+          "VelQuadraticForces vs Christoffel symbols of M")
+
+
 def c_gravity(case, ctx):
     S, Ml, Gl, n = unpack(case)
     q, g = case["q"], case["g"]
@@ -873,6 +895,7 @@ CLAUSES = [
     Clause("fd_inverts_id", c_fd_id, mr_cases(), 250, 16 * 1000),
     Clause("torque_decomposition", c_decomposition, mr_cases(keys=("qd", "qdd", "g", "F")), 250, 16 * 1000),
     Clause("coriolis_passivity", c_passivity, mr_cases(keys=("qd",)), 160, 16 * 500),
+    Clause("velocity_term_is_christoffel", c_christoffel, mr_cases(keys=("qd",)), 120, 16 * 400),
     Clause("gravity_is_potential_gradient", c_gravity, mr_cases(keys=("g",)), 250, 16 * 1000),
     Clause("energy_conserved", c_energy, energy_cases(), 32, 16 * 50, shrink_quick=False),
     Clause("arm_id_implementations_agree", c_arm_id_agree, arm_cases(), 160, 16 * 600),
